@@ -82,7 +82,9 @@ class Weighting(object):
 
     def __hash__(self):
         """Return ``hash(self)``."""
-        return hash((type(self), self.impl, self.exponent))
+        # Do not include `type(self)` since instances of different
+        # subclasses can be equal
+        return hash((self.impl, self.exponent))
 
     def equiv(self, other):
         """Test if ``other`` is an equivalent weighting.
